@@ -1,0 +1,26 @@
+//go:build verif
+// +build verif
+
+package utils
+
+import (
+	"sync/atomic"
+	"time"
+)
+
+var verifClock atomic.Value // of func() time.Time
+
+// SetVerifClock overrides the clock used for message ids (verification hook, build tag verif).
+func SetVerifClock(f func() time.Time) {
+	if f == nil {
+		f = time.Now
+	}
+	verifClock.Store(f)
+}
+
+func verifNow(t time.Time) time.Time {
+	if f, ok := verifClock.Load().(func() time.Time); ok && f != nil {
+		return f()
+	}
+	return t
+}
